@@ -18,6 +18,15 @@ CLAIMS = {
         note="console::measure_text_width is replaced by a byte-class width model (validated natively); no ANSI escapes in content; "
              "truncation of multi-byte content is a recorded known finding (witness harnesses must keep failing in that region only).",
         ref="4/C12"),
+    "C14": dict(
+        technique=K,
+        text="Builder side: for the concrete rejected configurations (0/1 tick strings, 0/1 tick chars, 0/1 progress chars, mixed-width "
+             "progress chars) the solver shows the builder call itself ends in a panic (should_panic harnesses that call only the builder). "
+             "Render side: for every accepted tick-string count 2..=6 and every u64 tick, every progress-char count 2..=10, every f32 fraction "
+             "in [0,1] and every width <= 65535 the indexing in get_tick_str/get_final_tick_str/format_bar/BarDisplay cannot panic.",
+        note="Styles are built on a directly constructed ProgressStyle (rig) instead of ProgressStyle::default_bar(); RandomState::new and "
+             "console::colors_enabled* are stubbed; rendering loop bounded to width <= 6 (index arithmetic checked up to 65535).",
+        ref="4/C14"),
 }
 
 NOT_YET = "check not built yet in this session (work in progress; see DESIGN.md section 7 for the order of work)"
